@@ -405,8 +405,6 @@ def propagate_new_temporaries(mod, pinned):
                 if any(isinstance(a, FUNC_TYPES + (ast.Lambda,)) and a is not fn for l in loads for a in _ancestors(l) if _is_inside(a, fn)):
                     continue
                 rhs = st.value
-                if any(isinstance(x, ast.Call) and isinstance(x.func, ast.Attribute) and x.func.attr in MUTATING for x in ast.walk(rhs)):
-                    continue
                 if any(isinstance(x, (ast.Yield, ast.YieldFrom, ast.Await, ast.NamedExpr)) for x in ast.walk(rhs)):
                     continue
                 # the definition must come first, in a block that encloses every use
@@ -592,8 +590,55 @@ def _is_inside(a, fn):
     return any(x is fn for x in _ancestors(a)) or a is fn
 
 
+def canonical_control(mod):
+    """Always-on canonical forms of two control idioms (applied to every parsed module, changed or not, so that rules see one form):
+
+    * inside a loop body, ``if c: continue`` followed by more statements becomes ``if not c: <those statements>``;
+    * ``if not c: A else: B`` becomes ``if c: B else: A`` (B not an elif chain).
+
+    Both are identities of the language.  Returns the number of rewrites."""
+    n = 0
+    changed = True
+    while changed:
+        changed = False
+        for loop in ast.walk(mod.tree):
+            if not isinstance(loop, (ast.For, ast.While, ast.AsyncFor)):
+                continue
+            todo = [loop.body]
+            while todo:
+                body = todo.pop()
+                for i, st in enumerate(body):
+                    if isinstance(st, ast.If) and len(st.body) == 1 and isinstance(st.body[0], ast.Continue) and not st.orelse and i + 1 < len(body):
+                        rest = body[i + 1:]
+                        test = st.test.operand if isinstance(st.test, ast.UnaryOp) and isinstance(st.test.op, ast.Not) else ast.copy_location(ast.UnaryOp(op=ast.Not(), operand=st.test), st.test)
+                        new = ast.If(test=test, body=rest, orelse=[])
+                        ast.copy_location(new, st)
+                        body[i:] = [new]
+                        n += 1
+                        changed = True
+                        todo.append(new.body)      # the wrapped rest is still the tail of the loop body
+                        break
+            if changed:
+                break
+        if changed:
+            set_parents(mod.tree)
+    for st in ast.walk(mod.tree):
+        if isinstance(st, ast.If) and st.orelse and isinstance(st.test, ast.UnaryOp) and isinstance(st.test.op, ast.Not) \
+                and not (len(st.orelse) == 1 and isinstance(st.orelse[0], ast.If)):
+            p_ = parent(st)
+            if isinstance(p_, ast.If) and len(p_.orelse) == 1 and p_.orelse[0] is st:
+                continue
+            st.test = st.test.operand
+            st.body, st.orelse = st.orelse, st.body
+            n += 1
+    if n:
+        ast.fix_missing_locations(mod.tree)
+        set_parents(mod.tree)
+    return n
+
+
 def normalise(mod):
-    """Apply B, C, A.  Returns a small report dict."""
+    """Apply B, A, C, A.  Returns a small report dict."""
     rep = {"inlined": 0, "propagated": 0, "renamed": 0}
     pinned = alpha.table().get(mod.name)
     if not pinned:
@@ -607,12 +652,19 @@ def normalise(mod):
         pass
     if rep["inlined"]:
         mod.reindex()
-    try:
-        rep["propagated"] = propagate_new_temporaries(mod, pinned)
-    except Exception:
-        pass
+    # rename first (a renamed local must not be mistaken for a new temporary), propagate what is really new, then rename again
+    # (a propagated temporary can restore the binding shape a pinned local is recognised by)
     try:
         rep["renamed"] = alpha.normalise(mod)
     except Exception:
         pass
+    try:
+        rep["propagated"] = propagate_new_temporaries(mod, pinned)
+    except Exception:
+        pass
+    if rep["propagated"]:
+        try:
+            rep["renamed"] += alpha.normalise(mod)
+        except Exception:
+            pass
     return rep
